@@ -41,8 +41,9 @@ ALLOC_CALLS = [
     (re.compile(r"vec::Vec::<.*>::(reserve|reserve_exact)$"), "reserve", 1),
     (re.compile(r"string::String::(with_capacity)$"), "with_capacity", 0),
     (re.compile(r"string::String::(reserve|reserve_exact)$"), "reserve", 1),
-    (re.compile(r"IndexMap::<.*>::(with_capacity|reserve|reserve_exact)$"), "reserve", -1),
-    (re.compile(r"HashMap::<.*>::(with_capacity|reserve)$|HashSet::<.*>::(with_capacity|reserve)$"), "reserve", -1),
+    # (a map sized by a constant or by the length of something that is in memory already is bounded like a Vec is)
+    (re.compile(r"(IndexMap|IndexSet|HashMap|HashSet)::<.*>::with_capacity$"), "reserve", 0),
+    (re.compile(r"(IndexMap|IndexSet|HashMap|HashSet)::<.*>::(reserve|reserve_exact)$"), "reserve", 1),
     (re.compile(r"slice::<impl \[T\]>::repeat$|str::<impl str>::repeat$"), "repeat", 1),
     (re.compile(r"iter::repeat_n$|iter::Iterator::cycle$|iter::repeat$"), "repeat", -1),
 ]
@@ -300,6 +301,15 @@ def discharge(F, s):
                 if ok(dv) and (S.lower(dv) > 0 or S.upper(dv) < 0):
                     return _auto(s, "divisor non-zero: in [%s, %s]" % (S.lower(dv), S.upper(dv)))
             return False
+        if kind == "call:vec-op" and re.search(r"vec::Vec::<.*>::(remove|swap_remove)$", t["f"].get("fn") or "") and len(t["args"]) == 2:
+            # `v.remove(i)` panics iff i >= v.len(): the same obligation as `v[i]`
+            base = env.op_term(t["args"][0], site_pos)
+            ln = Term("len(%s)" % strip_ref(repr(base)), 0, base.reads, "usize")
+            ix = env.op_term(t["args"][1], site_pos)
+            S, used, ok = solver([ln, ix])
+            if ok(ln) and ok(ix) and S.implies(ix, ln, -1):
+                return _auto(s, "index < len implied: " + "; ".join(used[-4:]))
+            return False
         if kind.startswith("index:"):
             it = kind[6:]
             full = t["f"].get("full") or ""
@@ -432,6 +442,11 @@ def discharge(F, s):
                 return _auto(s, "constant size %d" % sz.off)
             if sz.base is not None and sz.base.startswith("len(") and sz.off <= 64:
                 return _auto(s, "sized by the length of an existing buffer")
+            m_ = re.match(r"^_(\d+):len$", sz.base or "")
+            if m_ and sz.off <= 64:
+                dl = b.single_def(int(m_.group(1)))
+                if dl is not None and dl[2] == "call" and re.search(r"(BTreeMap|BTreeSet|HashMap|HashSet|IndexMap|IndexSet|VecDeque|BinaryHeap)::<.*>::len$", dl[3]["f"].get("fn") or ""):
+                    return _auto(s, "sized by the number of elements of a collection that is in memory")
             ub = S.upper(sz)
             if ub <= (1 << 20):
                 return _auto(s, "size bounded by %s" % ub)
@@ -471,7 +486,8 @@ _W = {"8": 8, "16": 16, "32": 32, "64": 64, "128": 128, "size": 64}
 
 def widened_from(site_term, row_term):
     """the site's term is the row's with integer casts to a wider type of the same signedness (and nothing else changed)."""
-    if _CAST_RX.sub(" as #", site_term) != _CAST_RX.sub(" as #", row_term) or site_term == row_term:
+    va = lambda t_: re.sub(r"\$\d+(\.\w+)*", "$", t_)      # (which variable is which is not compared: a pattern binding and a tuple field are the same operand)
+    if _CAST_RX.sub(" as #", va(site_term)) != _CAST_RX.sub(" as #", va(row_term)) or site_term == row_term:
         return None
     cs, cr = _CAST_RX.findall(site_term), _CAST_RX.findall(row_term)
     if len(cs) != len(cr) or not cs:
@@ -514,6 +530,8 @@ def casts_lossless_into(s, row_tys):
                 walk(rv["a"], depth - 1)
                 walk(rv["b"], depth - 1)
         elif d[2] == "call":
+            if re.search(r"^<[ui](8|16|32|64|128|size) as (std|core)::convert::From<[ui](8|16|32|64|128|size)>>::from$", d[3]["f"].get("full") or "") and len(d[3]["args"]) == 1:
+                found.append(env.op_ty(d[3]["args"][0]))      # `u64::from(x)` is the lossless cast it stands for
             for a in d[3]["args"]:
                 walk(a, depth - 1)
     for o in t["ops"]:
@@ -708,10 +726,18 @@ def inventory(ctx, F, scope, table, rule="R-INV", kinds=None):
             # (c) the same term computed in a wider integer type: every cast goes to a wider type than the reviewed one and
             # both keep the value of what they convert — the reviewed bound on the operands holds with room to spare
             if not rows:
+                cands_ = [s.nterm]
+                t_ = s.body.term(s.bb)
+                if t_["k"] == "assert":
+                    # ... also when a factor got a name of its own (`let weight = 256u64.pow(i)`): the structural rendering looks through it
+                    with s.body.alpha():
+                        alt_ = ",".join(s.body.sname(o, 4) for o in t_["ops"])
+                    cands_.append(_INDEX_RX.sub("index(", strip_views(alt_.replace("&", "").replace("*", ""))))
                 for r in same_fn:
-                    wt = widened_from(s.nterm, r["nterm"] if "nterm" in r else r.get("term", ""))
-                    if wt and casts_lossless_into(s, wt):
-                        rows.append(r)
+                    for ct_ in cands_:
+                        wt = widened_from(ct_, r["nterm"] if "nterm" in r else r.get("term", ""))
+                        if wt and casts_lossless_into(s, wt) and r not in rows:
+                            rows.append(r)
         if True:
             done = False
             why = []
